@@ -2,7 +2,7 @@
 import copy
 import json
 
-from core import Result, stable
+from core import Result, stable, guard
 
 RULE = ("random schema tables (a root schema with atoms, typed lists / nested typed lists / typed dicts, untyped lists and dicts and AnyFields with "
         "flat and nested mutable defaults, sub-schemas, config types, lists of configurations whose item schema is reused by two lists, dynamic "
@@ -747,7 +747,7 @@ def run(ctx, n_quick=250, n_thorough=8000):
     reqs, pend = [], []
     for i in range(ctx.n(n_quick, n_thorough)):
         one_case(ctx, res, i, table, reqs, pend)
-    transfer_stream(ctx, res, ctx.n(300, 6000))
+    guard(res, "C13", transfer_stream, ctx, res, ctx.n(300, 6000))
     replies = ctx.model(reqs)
     if replies is not None:
         for (case, trace), r in zip(pend, replies):
